@@ -433,6 +433,64 @@ func gridReadAll(t *document.Table) map[string]gridRead {
 		rd.Cells = gridInfos(cs)
 		return "ok"
 	})
+	// the per-cell getter: every physical cell, row-major
+	one("gt", func(rd *gridRead) string {
+		for r := range t.Rows {
+			for c := range t.Rows[r].Cells {
+				text, err := t.GetCellText(r, c)
+				if err != nil {
+					return "err"
+				}
+				rd.Cells = append(rd.Cells, gridCellRec(r, c, text))
+			}
+		}
+		return "ok"
+	})
+	// the row-wise traversal, row after row
+	one("fr", func(rd *gridRead) string {
+		for r := range t.Rows {
+			err := t.ForEachInRow(r, func(c int, cell *document.TableCell, text string) error {
+				rd.Cells = append(rd.Cells, gridCellRec(r, c, text))
+				return nil
+			})
+			if err != nil {
+				return "err"
+			}
+		}
+		return "ok"
+	})
+	// every other read accessor, inside, at and beyond the bounds: results are not projected, the calls must return
+	one("pr", func(rd *gridRead) string {
+		nr := len(t.Rows)
+		for r := -1; r <= nr; r++ {
+			nc := 1
+			if r >= 0 && r < nr {
+				nc = len(t.Rows[r].Cells)
+			}
+			t.GetRowHeight(r)
+			t.IsRowHeader(r)
+			t.IsRowKeepTogether(r)
+			t.ForEachInRow(r, func(int, *document.TableCell, string) error { return nil })
+			for c := -1; c <= nc; c++ {
+				t.GetCell(r, c)
+				t.GetCellText(r, c)
+				t.GetCellParagraphs(r, c)
+				t.GetCellFormat(r, c)
+				t.IsCellMerged(r, c)
+				t.GetMergedCellInfo(r, c)
+				t.GetNestedTables(r, c)
+				t.GetCellTextDirection(r, c)
+				if r == 0 {
+					t.ForEachInColumn(c, func(int, *document.TableCell, string) error { return nil })
+				}
+			}
+		}
+		t.GetTableLayout()
+		t.GetTableBreakInfo()
+		t.FindCellsByText("t", false)
+		t.FindCellsByText("", true)
+		return "ok"
+	})
 	return res
 }
 
@@ -679,7 +737,8 @@ func runGrid(c Case, emit Emitter) {
 		} else {
 			before = gridProject(t)
 		}
-		rd := map[string]gridRead{"it": gridEmptyRead(), "fe": gridEmptyRead(), "fc": gridEmptyRead(), "gr": gridEmptyRead()}
+		rd := map[string]gridRead{"it": gridEmptyRead(), "fe": gridEmptyRead(), "fc": gridEmptyRead(), "gr": gridEmptyRead(),
+			"gt": gridEmptyRead(), "fr": gridEmptyRead(), "pr": gridEmptyRead()}
 		cp := map[string]string{"o0": "", "o1": "", "c0": "", "c1": ""}
 		var ret, pmsg string
 		switch {
